@@ -73,7 +73,7 @@ impl ross_protocol::interface::can::verif_sim::Instance for CanDev {
 }
 
 // ---------- serial port (serialport::SerialPort + std::io) ----------
-// rx tokens: 0..=255 byte, 256 TimedOut, 257 other io error, 258 Interrupted, 259 WouldBlock error, 260 UnexpectedEof, 261 BrokenPipe.
+// rx tokens: 0..=255 byte, 256 TimedOut, 257 other io error, 258 Interrupted, 259 WouldBlock error, 260 UnexpectedEof, 261 BrokenPipe, 262 Ok(0) (nothing read).
 // write answers: n < 0x1000 accept up to n bytes (0 = Ok(0)), 0x1000 Interrupted, 0x1001 io error, 0x1002 TimedOut error, 0x1003 WouldBlock error, 0x1004 WriteZero error; exhausted = accept everything.
 #[derive(Default)]
 pub struct SerSt { pub rx: VecDeque<u16>, pub ans: VecDeque<u32>, pub flush_ok: bool, pub flush_kind: u64, pub tx: Vec<u8>, pub spins: u32, pub max_read: usize }
@@ -88,6 +88,7 @@ impl std::io::Read for SerDev {
             None => { spin(&mut s.spins); Err(std::io::Error::new(std::io::ErrorKind::TimedOut, "timeout")) }
             Some(256) => { s.rx.pop_front(); Err(std::io::Error::new(std::io::ErrorKind::TimedOut, "timeout")) }
             Some(258) => { s.rx.pop_front(); Err(std::io::Error::new(std::io::ErrorKind::Interrupted, "interrupted")) }
+            Some(262) => { s.rx.pop_front(); Ok(0) }
             Some(259) => { s.rx.pop_front(); Err(std::io::Error::new(std::io::ErrorKind::WouldBlock, "would block")) }
             Some(260) => { s.rx.pop_front(); Err(std::io::Error::new(std::io::ErrorKind::UnexpectedEof, "eof")) }
             Some(261) => { s.rx.pop_front(); Err(std::io::Error::new(std::io::ErrorKind::BrokenPipe, "broken pipe")) }
